@@ -234,6 +234,10 @@ func generate(rng *rand.Rand, dir string, ntraces, length int, emit func(*Event)
 			default:
 				h := 1 + rng.Intn(n)
 				switch c := rng.Intn(100); {
+				case t < 2 && i <= bs+80 && c < 85 && len(addedIDs) < n:
+					// the sessions with a large batch: mostly hashes not added before, so that the batch really
+					// holds more than a default batch of DISTINCT pending hashes when it is written
+					h = 1 + len(addedIDs)%n
 				case c < 10 && last != 0:
 					h = last // repeat inside the batch
 				case c < 30 && len(addedIDs) > 0:
